@@ -1018,3 +1018,206 @@ func c12Wasm(t *testing.T, tr *Trace, w *c12World) {
 		}
 	}
 }
+
+// ---------------------------------------------------------------------------------------------
+// C14: control matrix and sweeps
+
+func TestC14(t *testing.T) {
+	tr := OpenTrace(t, "c14.trace")
+	defer tr.Close(t)
+	w := c12Build(t)
+	cat := c12Catalogue()
+	prices := []string{"all", "none"}
+	days := []int{0}
+	if thorough() {
+		prices = []string{"all", "none", "a1", "a2", "a3"}
+		days = []int{0, 30}
+	}
+	for _, d := range days {
+		for _, c := range cat {
+			for _, brk := range []bool{false, true} {
+				for _, esmS := range []string{"none", "in", "after"} {
+					for _, pr := range prices {
+						scn := c12Scn{brk: brk, esm: esmS, price: pr, days: d}
+						ctx := w.stage(scn, w.appOf(c))
+						before := w.dump(ctx)
+						r := w.deliver(ctx, before, w.victimProj(ctx), c.mk(w, w.actor(c.owner)))
+						base := !brk && esmS == "none" && pr == "all"
+						if c.handler == "vault.MsgWithdraw" && !brk && esmS == "in" {
+							base = true // possible until the cool-off period ends (the ESM price snapshot is used)
+						}
+						w.emit(tr, c, fmt.Sprintf("ctl/d%d/brk%s/esm-%s/price-%s", d, b01(brk), esmS, pr), c.owner, false, scn, base, r)
+						if base && r.outcome != "ok" {
+							t.Logf("baseline %s failed: %s", c.handler, r.errText)
+						}
+					}
+				}
+			}
+		}
+	}
+	c14Sweeps(t, tr, w)
+}
+
+// sweepStage: an unhealthy vault and borrow (collateral price drop), liquidation enabled in both generations, auction
+// parameters, a collector surplus (asset a2) and a collector debt (asset a1) for the vault app.
+func (w *c12World) sweepStage(brkVault, brkLend bool, esmVault string) sdk.Context {
+	ctx, _ := w.ctx.CacheContext()
+	ctx = ctx.WithBlockHeight(ctx.BlockHeight() + 5).WithBlockTime(ctx.BlockTime().Add(30 * time.Second))
+	w.must(w.app.LiquidationKeeper.WasmWhitelistAppIDLiquidation(ctx, w.appVault), "whitelist liquidation")
+	for _, app := range []uint64{w.appVault, w.appLend} {
+		w.app.AuctionKeeper.SetAuctionParams(ctx, auctiontypes.AuctionParams{AppId: app, AuctionDurationSeconds: 300, Buffer: dec("1.2"), Cusp: dec("0.6"),
+			Step: sdk.NewInt(1), PriceFunctionType: 1, SurplusId: 1, DebtId: 2, DutchId: 3, BidDurationSeconds: 300})
+		w.app.NewliqKeeper.SetLiquidationWhiteListing(ctx, liquidationsV2types.LiquidationWhiteListing{AppId: app, Initiator: true, IsDutchActivated: true,
+			DutchAuctionParam:  &liquidationsV2types.DutchAuctionParam{Premium: dec("0.1"), Discount: dec("0.1"), DecrementFactor: sdk.NewInt(1)},
+			IsEnglishActivated: true, EnglishAuctionParam: &liquidationsV2types.EnglishAuctionParam{DecrementFactor: sdk.NewInt(1)}, KeeeperIncentive: dec("0.1")})
+	}
+	_ = w.app.LendKeeper.AddAuctionParamsData(ctx, lendtypes.AuctionParams{AppId: w.appLend, AuctionDurationSeconds: 21600, Buffer: dec("1.2"), Cusp: dec("0.7"),
+		Step: sdk.NewInt(360), PriceFunctionType: 1, DutchId: 3, BidDurationSeconds: 3600})
+	// collector: surplus on a2, debt on a1
+	w.must(w.app.CollectorKeeper.WasmSetCollectorLookupTable(ctx, &bindings.MsgSetCollectorLookupTable{
+		AppID: w.appVault, CollectorAssetID: w.a1, SecondaryAssetID: w.a3, SurplusThreshold: sdk.NewInt(10000000), DebtThreshold: sdk.NewInt(5000000),
+		LockerSavingRate: dec("0.1"), LotSize: sdk.NewInt(200000), BidFactor: dec("0.01"), DebtLotSize: sdk.NewInt(2000000)}), "collector a1")
+	w.must(w.app.CollectorKeeper.WasmSetAuctionMappingForApp(ctx, &bindings.MsgSetAuctionMappingForApp{AppID: w.appVault, AssetIDs: w.a2, IsSurplusAuctions: true,
+		AssetOutOraclePrices: false, AssetOutPrices: 1000000}), "mapping a2")
+	w.must(w.app.CollectorKeeper.WasmSetAuctionMappingForApp(ctx, &bindings.MsgSetAuctionMappingForApp{AppID: w.appVault, AssetIDs: w.a1, IsDebtAuctions: true,
+		AssetOutOraclePrices: false, AssetOutPrices: 1000000}), "mapping a1")
+	cs := sdk.NewCoins(coin("uasset2", 500000000))
+	w.must(w.app.BankKeeper.MintCoins(ctx, lendtypes.ModuleName, cs), "mint")
+	w.must(w.app.BankKeeper.SendCoinsFromModuleToModule(ctx, lendtypes.ModuleName, collectortypes.ModuleName, cs), "fund collector")
+	w.must(w.app.CollectorKeeper.SetNetFeeCollectedData(ctx, w.appVault, w.a2, sdk.NewInt(400000000)), "net fee a2")
+	w.must(w.app.CollectorKeeper.SetNetFeeCollectedData(ctx, w.appVault, w.a1, sdk.NewInt(100)), "net fee a1")
+	// price drop of the collateral
+	twa, _ := w.app.MarketKeeper.GetTwa(ctx, w.a1)
+	twa.Twa = 200000
+	twa.PriceValue = []uint64{200000}
+	w.app.MarketKeeper.SetTwa(ctx, twa)
+	now := ctx.BlockTime()
+	if brkVault {
+		w.must(w.app.EsmKeeper.SetKillSwitchData(ctx, esmtypes.KillSwitchParams{AppId: w.appVault, BreakerEnable: true}), "breaker")
+	}
+	if brkLend {
+		w.must(w.app.EsmKeeper.SetKillSwitchData(ctx, esmtypes.KillSwitchParams{AppId: w.appLend, BreakerEnable: true}), "breaker")
+	}
+	if esmVault != "none" {
+		w.app.EsmKeeper.SetESMStatus(ctx, esmtypes.ESMStatus{AppId: w.appVault, Executor: w.B.String(), Status: true, StartTime: now.Add(-time.Hour), EndTime: now.Add(time.Hour)})
+	}
+	return ctx
+}
+
+// sweepProj: what a sweep may touch for one app
+func (w *c12World) sweepProj(ctx sdk.Context, app uint64) (string, map[string]int) {
+	var b bytes.Buffer
+	cnt := map[string]int{}
+	for _, v := range w.app.VaultKeeper.GetVaults(ctx) {
+		if v.AppId == app {
+			fmt.Fprintf(&b, "v%d=%s/%s/%s;", v.Id, v.AmountIn, v.AmountOut, v.InterestAccumulated)
+		}
+	}
+	for _, lv := range w.app.LiquidationKeeper.GetLockedVaults(ctx) {
+		if lv.AppId == app {
+			if lv.Kind != nil {
+				cnt["v1borrow"]++
+			} else {
+				cnt["v1vault"]++
+			}
+		}
+	}
+	for _, lv := range w.app.NewliqKeeper.GetLockedVaults(ctx) {
+		if lv.AppId == app {
+			switch lv.InitiatorType {
+			case "surplus", "debt":
+				cnt["v2surplusdebt"]++
+			default:
+				cnt["v2pos"]++
+			}
+		}
+	}
+	if app == w.appLend {
+		for _, x := range w.app.LendKeeper.GetAllBorrow(ctx) {
+			fmt.Fprintf(&b, "b%d=%s/%s/%v;", x.ID, x.AmountIn, x.AmountOut, x.IsLiquidated)
+		}
+	}
+	if app == w.appVault {
+		for _, as := range []uint64{w.a1, w.a2} {
+			if m, ok := w.app.CollectorKeeper.GetAuctionMappingForApp(ctx, app, as); ok {
+				fmt.Fprintf(&b, "map%d=%v;", as, m.IsAuctionActive)
+				if m.IsAuctionActive {
+					cnt[fmt.Sprintf("active%d", as)]++
+				}
+			}
+			if nf, ok := w.app.CollectorKeeper.GetNetFeeCollectedData(ctx, app, as); ok {
+				fmt.Fprintf(&b, "nf%d=%s;", as, nf.NetFeesCollected)
+			}
+		}
+	}
+	keys := make([]string, 0, len(cnt))
+	for k := range cnt {
+		keys = append(keys, k)
+	}
+	sort.Strings(keys)
+	for _, k := range keys {
+		fmt.Fprintf(&b, "%s=%d;", k, cnt[k])
+	}
+	return b.String(), cnt
+}
+
+func c14Sweeps(t *testing.T, tr *Trace, w *c12World) {
+	type sweepLine struct {
+		name, app, counter string
+	}
+	runs := []struct {
+		name  string
+		run   func(ctx sdk.Context)
+		lines []sweepLine
+	}{
+		{"liquidation.BeginBlocker", func(ctx sdk.Context) { liquidation.BeginBlocker(ctx, abci.RequestBeginBlock{}, w.app.LiquidationKeeper) }, []sweepLine{
+			{"liquidation.LiquidateVaults", "vault", "v1vault"}, {"liquidation.LiquidateBorrows", "lend", "v1borrow"}}},
+		{"liquidationsV2.BeginBlocker", func(ctx sdk.Context) { liquidationsV2.BeginBlocker(ctx, abci.RequestBeginBlock{}, w.app.NewliqKeeper) }, []sweepLine{
+			{"liquidationsV2.LiquidateIndividualVault", "vault", "v2pos"}, {"liquidationsV2.LiquidateIndividualBorrow", "lend", "v2pos"},
+			{"liquidationsV2.LiquidateForSurplusAndDebt", "vault", "v2surplusdebt"}}},
+		{"auction.BeginBlocker", func(ctx sdk.Context) {
+			auction.BeginBlocker(ctx, w.app.AuctionKeeper, w.app.AssetKeeper, w.app.CollectorKeeper, w.app.EsmKeeper)
+		}, []sweepLine{{"auction.SurplusActivator", "vault", "active2"}, {"auction.DebtActivator", "vault", "active1"}}},
+	}
+	for _, run := range runs {
+		for _, brkVault := range []bool{false, true} {
+			for _, brkLend := range []bool{false, true} {
+				for _, esmS := range []string{"none", "in"} {
+					ctx := w.sweepStage(brkVault, brkLend, esmS)
+					pv0, cv0 := w.sweepProj(ctx, w.appVault)
+					pl0, cl0 := w.sweepProj(ctx, w.appLend)
+					panicked, pmsg := try(func() { run.run(ctx) })
+					if panicked {
+						t.Logf("sweep %s panicked: %s", run.name, pmsg)
+					}
+					pv1, cv1 := w.sweepProj(ctx, w.appVault)
+					pl1, cl1 := w.sweepProj(ctx, w.appLend)
+					for _, l := range run.lines {
+						brk, esmL, p0, p1, c0, c1 := brkVault, esmS, pv0, pv1, cv0, cv1
+						if l.app == "lend" {
+							brk, esmL, p0, p1, c0, c1 = brkLend, "none", pl0, pl1, cl0, cl1
+						}
+						started := c1[l.counter] - c0[l.counter]
+						base := !brk && esmL == "none"
+						if l.name == "liquidationsV2.LiquidateForSurplusAndDebt" && brkLend {
+							// x/liquidationsV2/keeper/liquidate.go:250: LiquidateBorrows returns the first borrow's error (here: breaker of
+							// the lend app) and Liquidate() then never reaches LiquidateForSurplusAndDebt — for ANY app. Fail-closed, so
+							// not a C14 matter (noted in notes/C14.md); it only removes the non-vacuity expectation of this line.
+							base = false
+						}
+						// only this sweep's own footprint decides appDiffEmpty when another sweep of the same blocker works on the same app
+						appSame := p0 == p1
+						if !brk {
+							appSame = true
+						}
+						tr.Line("grd.sweep", l.name, l.app, b01(brk), esmL, b01(base), fmt.Sprint(started), b01(appSame))
+						tr.Count(fmt.Sprintf("sweep:%s:brk%s:esm-%s:started%d", l.name, b01(brk), esmL, started))
+						if base && started == 0 {
+							t.Logf("sweep %s for app %s (brkVault=%v brkLend=%v esm=%s) started nothing with all controls clear: %s -> %s", l.name, l.app, brkVault, brkLend, esmS, p0, p1)
+						}
+					}
+				}
+			}
+		}
+	}
+}
